@@ -62,6 +62,18 @@ func init() {
 					Docs:    []eDoc{{ID: 100, Cons: []eConj{ex(1)}}, {ID: 200, Cons: []eConj{{}}}, {ID: -maxID + 1, Cons: []eConj{in(5), ex(5)}}, {ID: 1, Cons: []eConj{in(6)}}},
 					Queries: []eQuery{{}, {A: []eAssign{{F: 0, V: tvInt("int", 5)}}}, {A: []eAssign{{F: 0, V: tvInt("int", 1)}}}, {A: []eAssign{{F: 0, V: tvInt("int", 6)}}}, {A: []eAssign{{F: 0, V: tvInt("int", 2)}}}}})
 			}
+			// skip policy at the boundary ids: conjunctions that are refused IN FRONT OF good ones -- every good conjunction keeps
+			// the position it has in its document (the collector's conjunction id decodes to it)
+			for _, kind := range []string{"kgroups", "compact"} {
+				ex := func(n int64) eConj { return eConj{{F: 0, Inc: false, V: tvSlice("[]int", tvInt("int", n))}} }
+				in := func(n int64) eConj { return eConj{{F: 0, Inc: true, V: tvSlice("[]int", tvInt("int", n))}} }
+				bad := eConj{{F: 0, Inc: true, V: tvBool(true)}}
+				bad2 := eConj{{F: 1, Inc: false, V: TV{T: "other:map"}}}
+				const maxID = 1<<43 - 1
+				add(eCase{Kind: kind, Policy: "skip",
+					Docs:    []eDoc{{ID: maxID, Cons: []eConj{bad, in(5), ex(1)}}, {ID: -7, Cons: []eConj{in(6), bad2, in(5), bad, in(6)}}, {ID: -maxID, Cons: []eConj{bad, bad2, {}}}, {ID: 7, Cons: []eConj{in(5)}}},
+					Queries: []eQuery{{}, {A: []eAssign{{F: 0, V: tvInt("int", 5)}}}, {A: []eAssign{{F: 0, V: tvInt("int", 6)}}}, {A: []eAssign{{F: 0, V: tvInt("int", 1)}}}}})
+			}
 			rangeSplitCases(add) // ids (negative ones, several conjunction positions) through the range container's split pieces
 			n := 3000
 			if tier == "thorough" {
